@@ -1,7 +1,7 @@
 SPECIFICATION Spec
 CONSTANTS
   Programs <- GenPrograms
-  KF <- KFAll
+  KF <- KFOpen
   MaxCalls = 1000
 INVARIANTS Inv_NoViolation Inv_Sem Inv_RunningHoldSlots
 CHECK_DEADLOCK TRUE
